@@ -213,11 +213,19 @@ func exec(c *core.Ctx, cs Case) {
 		}
 	}
 	var wg sync.WaitGroup
-	worker := func(t int) {
+	var ready int32
+	worker := func(t int, group int) {
 		defer wg.Done()
 		jr := core.NewRand(cs.Jitter + uint64(t)*7919)
+		// release the goroutines of a group at the same instant (spin, so that they really run in parallel)
+		atomic.AddInt32(&ready, 1)
+		for i := 0; atomic.LoadInt32(&ready) < int32(group); i++ {
+			if i%200000 == 199999 {
+				runtime.Gosched()
+			}
+		}
 		for i, call := range cs.Progs[t] {
-			for y := jr.Intn(4); y > 0; y-- {
+			for y := jr.Intn(4); y > 0 && cs.Jitter%2 == 1; y-- {
 				runtime.Gosched()
 			}
 			r := d.Do(mkf(t, i, call))
@@ -243,7 +251,7 @@ func exec(c *core.Ctx, cs Case) {
 	hung := false
 	wg.Add(first)
 	for t := 0; t < first; t++ {
-		go worker(t)
+		go worker(t, first)
 	}
 	if cs.Gate {
 		select {
@@ -267,7 +275,7 @@ func exec(c *core.Ctx, cs Case) {
 	if !hung && cs.Late > 0 {
 		wg.Add(cs.Late)
 		for t := first; t < n; t++ {
-			go worker(t)
+			go worker(t, n)
 		}
 		if !waitAll() {
 			hung = true
@@ -287,6 +295,13 @@ func exec(c *core.Ctx, cs Case) {
 	}
 	if early != 0 {
 		c.Fail("Do returned before the invocation completed", fmt.Sprintf("%d calls had returned while the invoked function was still held on the gate", early))
+	}
+	if len(ranCopy) >= 1 && first >= 2 {
+		if ranCopy[0][0] == 0 {
+			c.Count("winner_is_goroutine_0")
+		} else {
+			c.Count("winner_is_another_goroutine")
+		}
 	}
 	if len(ranCopy) >= 1 {
 		w := ranCopy[0]
